@@ -714,13 +714,13 @@ def _r8_jit_arguments(ctx):
             ctx.unrecognised(r8, shim, f"shim o wrap_objective [do_grad={do_grad}]", f"not interpretable: {type(e).__name__}: {e}")
 
 
-def _r7_switch_histories(ctx):
+def _r7_switch_histories(ctx, rid=None):
     """set_backend interpreted over a model of the manager state, the retrievers and the event system, for histories of
     switches; every backend's own _setup is interpreted when set_backend calls it."""
     from ..alg import NotHandled, Obj, Poly, PyFunc, RaisedInFragment, Undecided
     from ..objmodel import World
     repo = ctx.repo
-    r7 = ctx.rule(
+    r7 = rid or ctx.rule(
         "C11.R7",
         "SWITCH-HISTORY (interpreted): set_backend walked for histories of switches (name changes, precision-only changes in both "
         "directions, no change, a backend object plus a precision keyword, default=True) over a model of the manager state: after "
@@ -890,3 +890,59 @@ def _r7_switch_histories(ctx):
             ctx.violated(r7, sb, label, f"the refresh callbacks of 'tensorlib_changed' run while the process-wide mode `{m_}` is still {fired[0][2].get(m_)}; the new backend's _setup switches it to {final_modes.get(m_)} only afterwards, so every surviving object is refreshed with tensors of the wrong width", expected="mode switched before the refresh (or not at all)", found="switched after")
         else:
             ctx.holds(r7, f"{MAN}::{label}", f"current {want}; trigger {'fired after the swap' if fired else 'not fired'}")
+
+    # ---- the optimiser half of the state: after every call the optimiser in force is the one THIS call asked for
+    OPTM = "src/pyhf/optimize/"
+    try:
+        from ..objmodel import World as _World
+        ow = _World({"__strict__": True}, module_env={"exceptions": Obj("exceptions"), "log": Obj("log"), "NotImplemented": Obj("NotImplemented"), "object": Obj("object")})
+        oclasses = {"scipy": repo.cls(OPTM + "opt_scipy.py", "scipy_optimizer"), "minuit": repo.cls(OPTM + "opt_minuit.py", "minuit_optimizer")}
+        ow.add_class(repo.cls(OPTM + "mixins.py", "OptimizerMixin"))
+        for c_ in oclasses.values():
+            ow.add_class(c_)
+        ow.base["__isinstance__"] = lambda v, cl: getattr(getattr(v, "cls", None), "name", None) == getattr(cl, "name", None)
+
+        def opt_equal(a, b):
+            """== between two optimiser stand-ins, decided by the REAL classes: identity unless they define __eq__, in which
+            case both are built through their real constructors from their settings and the real __eq__ is interpreted"""
+            if not (isinstance(a, Obj) and isinstance(b, Obj) and a.name == "optimizer" and b.name == "optimizer"):
+                raise NotHandled()
+            ca, cb = oclasses.get(a.attrs["name"]), oclasses.get(b.attrs["name"])
+            if ca is None or cb is None or "__eq__" not in ow.methods_of(ca):
+                return a is b
+            ia, ib = ow.new(ca, [], dict(a.attrs["conf"])), ow.new(cb, [], dict(b.attrs["conf"]))
+            if ca is not cb:
+                ow.base["type"] = None
+            return ow.equal(ia, ib)
+
+        w.base["__eq__"] = opt_equal
+        w.ext = None
+        T1, T2 = Poly.atom("TOL1"), Poly.atom("TOL2")
+        custom_a = Obj("optimizer", {"name": "scipy", "conf": {"tolerance": T1}}, closed=True)
+        custom_b = Obj("optimizer", {"name": "scipy", "conf": {"tolerance": T2}}, closed=True)
+        custom_m = Obj("optimizer", {"name": "minuit", "conf": {"strategy": Poly.const(2)}}, closed=True)
+        custom_n = Obj("optimizer", {"name": "minuit", "conf": {"strategy": Poly.const(0)}}, closed=True)
+        osteps = [
+            ("an optimizer object with tolerance=TOL1", {"custom_optimizer": custom_a}, ("scipy", {"tolerance": "TOL1"})),
+            ("ANOTHER optimizer object of the same class with tolerance=TOL2", {"custom_optimizer": custom_b}, ("scipy", {"tolerance": "TOL2"})),
+            ("no optimizer named (the default one)", {}, ("scipy", {})),
+            ("a minuit optimizer object with strategy=2", {"custom_optimizer": custom_m}, ("minuit", {"strategy": "2"})),
+            ("another minuit optimizer object with strategy=0", {"custom_optimizer": custom_n}, ("minuit", {"strategy": "0"})),
+            ("the optimizer named 'minuit'", {"custom_optimizer": "minuit"}, ("minuit", {})),
+            ("the optimizer named 'scipy'", {"custom_optimizer": "scipy"}, ("scipy", {})),
+        ]
+        for lab, kw, (wname, wconf) in osteps:
+            label = f"optimizer step: set_backend('numpy', {lab})"
+            w.call_func(sb, ["numpy"], dict(kw))
+            cur_o = this.attrs["state"]["current"][1]
+            gname = cur_o.attrs.get("name") if isinstance(cur_o, Obj) else None
+            gconf = {k_: str(v_) if not isinstance(v_, (dict, list)) else v_ for k_, v_ in (cur_o.attrs.get("conf") or {}).items()} if isinstance(cur_o, Obj) else None
+            passed = kw.get("custom_optimizer")
+            if (gname, gconf) != (wname, wconf) or (isinstance(passed, Obj) and cur_o is not passed):
+                ctx.violated(r7, sb, label, "after the call the optimiser in force is not the one this call asked for (an optimiser that compares equal to the previous one -- same class, same compared settings -- is dropped in favour of the previous object, together with the settings that were not compared)", expected=f"{wname} optimizer with settings {wconf}", found=f"{gname} optimizer with settings {gconf}")
+            else:
+                ctx.holds(r7, f"{MAN}::{label}", f"optimizer in force: {gname} {gconf}")
+    except RaisedInFragment as e:
+        ctx.violated(r7, sb, "optimizer steps", f"a valid switch of the optimiser raises {e.exc_name}")
+    except errs as e:
+        ctx.unrecognised(r7, sb, "optimizer steps", f"not interpretable: {type(e).__name__}: {e}")
